@@ -96,12 +96,19 @@ FAMILIES = ["{a}*(x - {b})**2 + {c}", "{a}*(x - {b})**4 + {c}*x", "{a}*x**3 + {b
 
 
 def gen_min_cases(rng, n):
+    """the wrapper: bounds with an end exactly 0, one-sided (None) bounds, minima on either side of a bound"""
     out = []
-    for c in gen_cases(rng, n):
-        a, b, cc = [float.fromhex(h) for h in c["abc"]]
-        out.append({"expr": FAMILIES[c["kind"]].format(a=a, b=b, c=cc), "kind": c["kind"], "abc": c["abc"], "x0": float.fromhex(c["x0"]),
-                    "bounds": [float.fromhex(h) for h in c["bounds"]] if c["bounds"] else None, "lr": float.fromhex(c["lr"]),
-                    "max_iter": c["max_iter"], "tol": float.fromhex(c["tol"]), "bounds_kind": c["bounds_kind"]})
+    bound_pool = [[0, 5], [-5, 0], [None, 2], [-1, None], [0, None], [None, 0], [-3, 3], [0.0, 4.0], None]
+    for _ in range(n):
+        kind = rng.choice([0, 0, 0, 1, 2])
+        a = rng.choice([0.5, 1.0, 2.0])
+        b = rng.choice([-2.0, -1.0, 1.0, 3.0, 0.5])
+        c = rng.choice([-1.0, 0.0, 2.0])
+        bounds = rng.choice(bound_pool)
+        x0 = rng.choice([-4.0, -0.5, 0.0, 0.5, 1.0, 2.0, 4.5])
+        out.append({"expr": FAMILIES[kind].format(a=a, b=b, c=c), "kind": kind, "abc": [fhex(a), fhex(b), fhex(c)], "x0": x0,
+                    "bounds": bounds, "lr": rng.choice([0.05, 0.1]), "max_iter": rng.choice([60, 400]), "tol": rng.choice([1e-4, 1e-3]),
+                    "bounds_kind": "none" if bounds is None else "zero-end" if 0 in [v for v in bounds if v is not None] else "one-sided" if None in bounds else "two-sided"})
     return out
 
 
@@ -115,8 +122,12 @@ def emit_min(pairs):
             continue
         cls = imp["cls"]
         x0 = fl(float(case["x0"]).hex())
-        within = (f"(fun x => PrimFloat.leb {fl(float(case['bounds'][0]).hex())} x && PrimFloat.leb x {fl(float(case['bounds'][1]).hex())})"
-                  if case["bounds"] else "(fun _ : float => true)")
+        if case["bounds"]:
+            lo = fl(float(case["bounds"][0]).hex()) if case["bounds"][0] is not None else "neg_infinity"
+            hi = fl(float(case["bounds"][1]).hex()) if case["bounds"][1] is not None else "infinity"
+            within = f"(fun x => PrimFloat.leb {lo} x && PrimFloat.leb x {hi})"
+        else:
+            within = "(fun _ : float => true)"
         if cls == 0:
             a, b, c = [fl(h) for h in case["abc"]]
             hist = E.coq_list([fl(h) for h in imp["hist"]])
@@ -143,7 +154,7 @@ def mk_min_stream(cases):
 def streams(tier, seed):
     rng = lib.Rng(f"C20-{seed}")
     n = 300 if tier == "quick" else 6000
-    m = 40 if tier == "quick" else 400
+    m = 120 if tier == "quick" else 1500
     return [mk_stream(lib.load_corpus(PROP, "graddesc") + gen_cases(rng, n)), mk_min_stream(gen_min_cases(rng, m))]
 
 
